@@ -1207,6 +1207,11 @@ class ClientObservation:
         _deferred_error = None
 
         async def __anext__(self):
+            if self._future.cancelled():
+                # An earlier wait on this iterator was cancelled (eg. by an
+                # asyncio.wait_for around it) before anything arrived; that
+                # cancellation is over and not this caller's
+                self._future = asyncio.get_running_loop().create_future()
             f = self._future
             try:
                 result = await self._future
